@@ -173,17 +173,27 @@ func (v *Verdict) Emit(evidenceDir string, wall float64, seed int, extra map[str
 		}
 		code = 1
 	}
+	// a rule that cannot decide, or that no longer finds what it is about, has
+	// not shown the property: reported as a violation of its own kind (with a
+	// replay file like any other), never as a pass
+	n := len(v.Violations)
 	for _, u := range v.Undecided {
+		n++
+		path := filepath.Join(evidenceDir, "violations", fmt.Sprintf("%s-%d.json", v.Property, n))
+		b, _ := json.MarshalIndent(map[string]interface{}{"property": v.Property, "undecided": u}, "", " ")
+		os.WriteFile(path, b, 0o644)
+		fmt.Printf("VIOLATION property=%s replay=%s\n", v.Property, path)
 		fmt.Printf("UNDECIDED property=%s %s\n", v.Property, u)
-		if code == 0 {
-			code = 2
-		}
+		code = 1
 	}
 	for _, u := range v.Vacuous {
+		n++
+		path := filepath.Join(evidenceDir, "violations", fmt.Sprintf("%s-%d.json", v.Property, n))
+		b, _ := json.MarshalIndent(map[string]interface{}{"property": v.Property, "vacuous": u}, "", " ")
+		os.WriteFile(path, b, 0o644)
+		fmt.Printf("VIOLATION property=%s replay=%s\n", v.Property, path)
 		fmt.Printf("VACUOUS property=%s %s\n", v.Property, u)
-		if code == 0 {
-			code = 2
-		}
+		code = 1
 	}
 	obl, dis := 0, 0
 	var samples []interface{}
